@@ -263,6 +263,12 @@ func c08Edits(base lpScript, key *lpKey, nonce []byte) []struct {
 			s = base.clone()
 			s.Rounds[r] = append(append(append([]lpItem(nil), s.Rounds[r][:i+1]...), it), s.Rounds[r][i+1:]...)
 			add(s, "duplicate:"+pos)
+			// insert a login acknowledgement that does not belong there
+			for _, st := range []int{srv.LogNegotiate, srv.LogFail} {
+				s = base.clone()
+				s.Rounds[r] = append(append(append([]lpItem(nil), s.Rounds[r][:i]...), lpLoginAck(st)), s.Rounds[r][i:]...)
+				add(s, fmt.Sprintf("insert:loginack-status-%d-before:%s", st, pos))
+			}
 			// swap with the next
 			if i+1 < len(base.Rounds[r]) {
 				s = base.clone()
@@ -352,7 +358,7 @@ func c08Edits(base lpScript, key *lpKey, nonce []byte) []struct {
 
 func runC08(c *Ctx) {
 	r := c.R
-	r.Rule = "reply scripts for both login flows: valid scripts (RSA key sizes 1024/1536/2048, nonce lengths 1..64 (capped by the key capacity for the 32-byte session key), with/without remote servers, ENVCHANGE / informational messages interleaved, packet size announced) and EVERY single-edit mutation (delete, duplicate, reorder-with-next of every package; alter of every checked field: acknowledgement status, message id, parameter count/types, cipher, 8 kinds of unusable keys, capability masks, DONE status; nothing sent at all), each in 2 (quick) / 4 (thorough) packetisation classes, plus seeded multi-edit scripts in thorough; classified by an independent acceptor into must-accept / must-reject / unspecified; non-trivial = script that differs from the valid one; distinct = (flow, edit, packetisation)"
+	r.Rule = "reply scripts for both login flows: valid scripts (RSA key sizes 1024/1536/2048, nonce lengths 1..64 (capped by the key capacity for the 32-byte session key), with/without remote servers, ENVCHANGE / informational messages interleaved, packet size announced) and EVERY single-edit mutation (delete, duplicate, reorder-with-next of every package, a login acknowledgement with status NEGOTIATE / FAIL inserted before every package; alter of every checked field: acknowledgement status, message id, parameter count/types, cipher, 8 kinds of unusable keys, capability masks, DONE status; nothing sent at all), each in 2 (quick) / 4 (thorough) packetisation classes, plus seeded multi-edit scripts in thorough; classified by an independent acceptor into must-accept / must-reject / unspecified; non-trivial = script that differs from the valid one; distinct = (flow, edit, packetisation)"
 	r.TrustedBase = []string{"independent acceptor lpClassify over the reply as deliverable", "harness/srv encoder", "Go crypto for the server key"}
 	r.Assumptions = []string{"unspecified (counted, never judged): the server's DONE missing but supplied by the library, a non-final DONE in encrypted round 1, extra packages before the round-2 acknowledgement or after the final DONE, a single all-zero capability type", "a zero-length nonce is a NULL parameter and not generated as valid script (a conforming server sends a nonce)", "missing packages are detected at context expiry: contexts of 400 ms, structural verdict after a 15 s watchdog"}
 	if c.Replay != nil {
